@@ -168,4 +168,149 @@ theorem C20_kept_closed (defs : List (Def K)) (sel : String → Bool) (u d : Def
   obtain ⟨qv, gs, hs⟩ := hus
   exact List.mem_filterMap.2 ⟨u, hu, by simp [hs]⟩
 
+/-- **Errors, exactly.** For definitions as `DefGateSequence::try_new` validates them, the expansion returns
+error `e` iff `e` is the report of the first misuse met in depth-first program order (`ErrAt`). -/
+theorem C20_expand_err_iff (defs : List (Def K)) (sel : String → Bool) (hw : WellFormed defs)
+    (src : List (Instr K)) (e : Err) :
+    expand defs sel src = .err e ↔ ErrAt defs sel [] src e :=
+  expandFuel_err_iff defs sel hw _ [] src e (by have := remaining_nil_le defs; omega)
+
+/-- **Totality**: every expansion either succeeds with the specified result or reports an error. -/
+theorem C20_total (defs : List (Def K)) (sel : String → Bool) (src : List (Instr K)) :
+    (∃ out, expand defs sel src = .ok out) ∨ (∃ e, expand defs sel src = .err e) := by
+  cases h : expand defs sel src with
+  | ok out => exact .inl ⟨out, rfl⟩
+  | err e => exact .inr ⟨e, rfl⟩
+  | outOfFuel => exact absurd h (C20_terminates defs sel src)
+
+/-- **Cycles and arity or modifier misuse are reported as errors** (order-free form): the expansion fails
+iff some misuse — wrong parameter count, modifiers, a definition invoked inside its own expansion, wrong
+qubit count, a non-fixed qubit — is reachable from the body through selected invocations. -/
+theorem C20_error_iff_bad (defs : List (Def K)) (sel : String → Bool) (hw : WellFormed defs)
+    (src : List (Instr K)) :
+    (∃ e, expand defs sel src = .err e) ↔ Bad defs sel [] src := by
+  constructor
+  · rintro ⟨e, h⟩
+    exact errAt_bad ((C20_expand_err_iff defs sel hw src e).1 h)
+  · intro hb
+    rcases C20_total defs sel src with ⟨out, h⟩ | h
+    · exact absurd ((C20_expand_ok_iff defs sel src out).1 h) (bad_not_expands hb out)
+    · exact h
+
+/-- The kind of error is the kind of the misuse: e.g. a cycle error is reported only with the stack of
+definitions being expanded, and that stack contains the definition invoked again. -/
+theorem C20_cyclic_error_sound (defs : List (Def K)) (sel : String → Bool)
+    (stack : List String) (src : List (Instr K)) (names : List String)
+    (h : ErrAt defs sel stack src (.cyclic names)) :
+    ∃ g d, Selected defs sel g d ∧ d.name ∈ names ∧ stack <+: names := by
+  generalize he : Err.cyclic names = e at h
+  induction h with
+  | here hl =>
+    cases hl with
+    | cyclic hsel _ _ hin => cases he; exact ⟨_, _, hsel, hin, List.prefix_refl _⟩
+    | paramCount => cases he
+    | modifiers => cases he
+    | qubitCount => cases he
+    | nonFixed => cases he
+  | inside _ _ _ _ _ ih =>
+    obtain ⟨g, d, h1, h2, h3⟩ := ih he
+    exact ⟨g, d, h1, h2, (List.prefix_append _ _).trans h3⟩
+  | later _ _ ih => exact ih he
+
+/-- With no selected definition nothing is expanded and nothing can fail. -/
+theorem C20_nothing_selected (defs : List (Def K)) (src : List (Instr K)) :
+    expand defs (fun _ => false) src = .ok src := by
+  apply C20_unselected_unchanged
+  rintro i _ ⟨g, d, _, _, _, h⟩
+  cases h
+
+/-! ### Non-vacuity: concrete instances (evaluated by the kernel) -/
+
+section Examples
+
+private def rz (p : Expr Nat) (q : Qubit) : Gate Nat := { name := "RZ", params := [p], qubits := [q], mods := [] }
+/-- `DEFGATE a(%x) q r AS SEQUENCE: RZ(%x) q; b(%x+1) r`, `DEFGATE b(%y) q AS SEQUENCE: RZ(%y) q; RZ(2) q` -/
+private def exDefs : List (Def Nat) :=
+  [ { name := "a", params := ["x"], spec := .seq ["q", "r"]
+        [rz (.var "x") (.var "q"),
+         { name := "b", params := [.bin (.var "x") .plus (.number 1)], qubits := [.var "r"], mods := [] }] },
+    { name := "b", params := ["y"], spec := .seq ["q"] [rz (.var "y") (.var "q"), rz (.number 2) (.var "q")] },
+    { name := "m", params := [], spec := .other } ]
+private def inv (n : String) (p : Expr Nat) (qs : List Qubit) : Instr Nat :=
+  .gate { name := n, params := [p], qubits := qs, mods := [] }
+
+/-- nested expansion with parameter and qubit substitution, other instructions untouched -/
+example : expand exDefs (fun _ => true) [.other 1, inv "a" (.number 7) [.fixed 3, .fixed 4], inv "m" .pi [.fixed 0]]
+    = .ok [.other 1, .gate (rz (.number 7) (.fixed 3)),
+           .gate (rz (.bin (.number 7) .plus (.number 1)) (.fixed 4)), .gate (rz (.number 2) (.fixed 4)),
+           inv "m" .pi [.fixed 0]] := by decide
+
+/-- only `a` selected: the inner `b` invocation stays, and `b` must be kept (reachable from… nothing
+unselected — `b` itself is unselected) -/
+example : expand exDefs (fun n => n == "a") [inv "a" (.number 7) [.fixed 3, .fixed 4]]
+    = .ok [.gate (rz (.number 7) (.fixed 3)), inv "b" (.bin (.number 7) .plus (.number 1)) [.fixed 4]] := by decide
+example : (keptDefs exDefs (fun n => n == "a")).map (·.name) = ["b", "m"] := by decide
+/-- only `b` selected: `a` is unselected and mentions `b`, so `b` is kept although selected -/
+example : (keptDefs exDefs (fun n => n == "b")).map (·.name) = ["a", "b", "m"] := by decide
+example : (keptDefs exDefs (fun _ => true)).map (·.name) = ["m"] := by decide
+
+/-- errors: arity, modifiers, non-fixed qubit, and a cycle with the stack it is reported with -/
+example : expand exDefs (fun _ => true) [.gate { name := "b", params := [], qubits := [.fixed 0], mods := [] }]
+    = .err (.paramCount 1 0) := by decide
+example : expand exDefs (fun _ => true) [.gate { name := "b", params := [.pi], qubits := [.fixed 0], mods := [.dagger] }]
+    = .err (.modifiers [.dagger]) := by decide
+example : expand exDefs (fun _ => true) [inv "a" .pi [.fixed 0, .var "q"]] = .err (.nonFixedQubit (.var "q")) := by decide
+private def cyc : List (Def Nat) :=
+  [ { name := "a", params := [], spec := .seq ["q"] [{ name := "b", params := [], qubits := [.var "q"], mods := [] }] },
+    { name := "b", params := [], spec := .seq ["q"] [{ name := "a", params := [], qubits := [.var "q"], mods := [] }] } ]
+example : expand cyc (fun _ => true) [.gate { name := "a", params := [], qubits := [.fixed 0], mods := [] }]
+    = .err (.cyclic ["a", "b"]) := by decide
+/-- the same cycle is harmless when `b` is not selected -/
+example : expand cyc (fun n => n == "a") [.gate { name := "a", params := [], qubits := [.fixed 0], mods := [] }]
+    = .ok [.gate { name := "b", params := [], qubits := [.fixed 0], mods := [] }] := by decide
+/-- `WellFormed` is satisfiable by these definitions -/
+example : WellFormed exDefs := by
+  intro d hd qv gs hs e he q hq
+  simp [exDefs] at hd
+  rcases hd with rfl | rfl | rfl <;> simp at hs
+  · obtain ⟨rfl, rfl⟩ := hs
+    simp [rz] at he
+    rcases he with rfl | rfl <;> simp at hq <;> subst hq <;> simp
+  · obtain ⟨rfl, rfl⟩ := hs
+    simp [rz] at he
+    rcases he with rfl | rfl <;> simp at hq <;> subst hq <;> simp
+
+end Examples
+
+/-- **Positional substitution.** If the definition's formal parameters are pairwise distinct, the
+instantiated body is the definition's gates with every parameter expression substituted by a `σ` that maps
+the `i`-th formal to the `i`-th argument and nothing else; names and modifiers are those of the elements. -/
+theorem C20_instantiates_positional {d : Def K} {g : Gate K} {body : List (Gate K)}
+    (h : Instantiates d g body) (hn : d.params.Nodup) :
+    ∃ (qvars : List String) (gates : List (Gate K)) (σ : String → Option (Expr K)),
+      d.spec = .seq qvars gates ∧
+      (∀ (i : Nat) v a, d.params[i]? = some v → g.params[i]? = some a → σ v = some a) ∧
+      (∀ v, v ∉ d.params → σ v = none) ∧
+      Pointwise (fun e b => b.name = e.name ∧ b.mods = e.mods ∧ b.params = e.params.map (subst σ)) gates body := by
+  obtain ⟨qv, gs, fs, σ, ρ, hs, _, _, _, hσ, _, hpw⟩ := h
+  refine ⟨qv, gs, σ, hs, ?_, ?_, pointwise_mono (fun e b hb => ⟨hb.name, hb.mods, hb.params⟩) hpw⟩
+  · intro i v a hv ha
+    exact (hσ v a).2 (binds_of_nodup _ _ hn i v a hv ha)
+  · intro v hv
+    cases hsv : σ v with
+    | none => rfl
+    | some a =>
+      obtain ⟨i, hi, _⟩ := (hσ v a).1 hsv
+      exact absurd (List.mem_of_getElem? hi) hv
+
+/-- … and each qubit of each element is the fixed qubit argument bound to that qubit variable. -/
+theorem C20_instantiates_qubits {d : Def K} {g : Gate K} {body : List (Gate K)}
+    (h : Instantiates d g body) :
+    ∃ (qvars : List String) (gates : List (Gate K)) (ρ : String → Option Qubit),
+      d.spec = .seq qvars gates ∧ IsBinding qvars g.qubits ρ ∧
+      Pointwise (fun e b => Pointwise (fun eq bq => ∃ v, eq = Qubit.var v ∧ ρ v = some bq) e.qubits b.qubits)
+        gates body := by
+  obtain ⟨qv, gs, fs, σ, ρ, hs, _, _, _, _, hρ, hpw⟩ := h
+  exact ⟨qv, gs, ρ, hs, hρ, pointwise_mono (fun e b hb => hb.qubits) hpw⟩
+
 end QV.C20
